@@ -2,7 +2,7 @@
 arguments, bit-identical results whatever ran before or runs concurrently.
 
 Deterministic simulation: 1..8 simulated caller threads (real threads, one
-baton, seeded pre-emption at line / opcode events inside /repo files) execute a
+baton, seeded pre-emption at line events inside /repo files) execute a
 generated history of 1..50 public-API calls; faults = cancellation / MemoryError
 at an arbitrary line, stalls.  Oracles:
   O1  write barrier + snapshots on the import-time constant catalogue and on
@@ -76,19 +76,19 @@ class C09(CheckBase):
         'real': ['geodepy.angles', 'geodepy.constants', 'geodepy.convert', 'geodepy.geodesy', 'geodepy.statistics',
                  'geodepy.survey', 'geodepy.transform', 'geodepy.coord', 'geodepy.ntv2reader (under transform.ntv2_2d)',
                  'numpy'],
-        'simulated': ['caller threads (real OS threads, one baton, seeded scheduler at line/opcode events)',
+        'simulated': ['caller threads (real OS threads, one baton, seeded scheduler at line events)',
                       'cancellation / MemoryError / stall faults'],
         'stub': ['the disk under ntv2_2d (SimFS, one generated 2-sub-grid file)'],
     }
     assumptions = [
-        'pre-emption only at line/opcode boundaries inside files under /repo; numpy C code runs atomically',
+        'pre-emption only at line boundaries inside files under /repo (a read-modify-write of shared state confined to ONE source line without a call into /repo code cannot be split); numpy C code runs atomically',
         'the reference value of a call is the same code evaluated alone in a freshly forked pristine process',
         'a new private memo (underscore name, new name, or container empty at import) is tolerated as long as results stay bit-identical',
     ]
     rule = ('run = seeded history of 1..50 public-API calls over 1..8 simulated threads + fault plan; non-trivial = >=2 ops and '
             '(single thread: >=1 repeated or state-sharing op pair; multi thread: >=1 context switch while >=2 ops in flight); '
             'distinct = sha256 of (op kinds per thread, sequence of (pre-empted kind -> resumed kind) at switches, fault kinds fired)')
-    simulated_time_note = 'no timers in this system; time is scheduler steps (line/opcode events), see counters.steps'
+    simulated_time_note = 'no timers in this system; time is scheduler steps (line events), see counters.steps'
 
     # ------------------------------------------------------------------ setup
     def setup_process(self):
@@ -329,9 +329,10 @@ class C09(CheckBase):
                 faults.append({'kind': rng.choice(['cancel', 'cancel', 'oom']), 'op': o['id'], 'frac': round(rng.random(), 4)})
             if T > 1 and rng.random() < 0.4:
                 faults.append({'kind': 'stall', 'thread': rng.randrange(T), 'at': rng.randrange(1, 3000), 'for': rng.choice([50, 500, 5000])})
+        # Opcode-granularity pre-emption (frame.f_trace_opcodes) is NOT used: CPython 3.12.1 segfaults
+        # when opcode events are enabled while another thread is suspended inside the same code object
+        # (reproduced: ~2 % of multi-threaded runs die with SIGSEGV).  Line events only.
         opcode = None
-        if tier == 'thorough' and T > 1 and rng.random() < 0.25:
-            opcode = '%08x' % rng.getrandbits(32)
         return {'property': 'C09', 'threads': T, 'ops': ops, 'shared': shared, 'faults': faults,
                 'sched': {'mode': 'rng', 'seed': rng.getrandbits(64)}, 'switches': [], 'opcode_salt': opcode,
                 'scribble': rng.random() < 0.35, 'focus': focus}
@@ -642,11 +643,34 @@ class C09(CheckBase):
         return {'digest': log.digest(), 'violations': viol[:40], 'stats': stats, 'sets': sets, 'sig': sig,
                 'nontrivial': nontrivial, 'sample': sample, 'recorded': recorded}
 
-    def _scribble(self, res, args, depth=0):
+    def _reachable_ids(self, objs, depth=0, acc=None):
+        """ids of every object reachable from the caller's arguments (so that the harness never
+        scribbles on something the caller had before the call - aliasing an argument is legal)"""
+        acc = set() if acc is None else acc
+        for o in objs:
+            if id(o) in acc or depth > 4:
+                continue
+            acc.add(id(o))
+            if isinstance(o, (list, tuple)):
+                self._reachable_ids(o, depth + 1, acc)
+            elif isinstance(o, dict):
+                self._reachable_ids(list(o.values()), depth + 1, acc)
+            elif self.canon.is_repo_class(type(o)):
+                try:
+                    self._reachable_ids(list(vars(o).values()), depth + 1, acc)
+                except TypeError:
+                    pass
+        return acc
+
+    def _scribble(self, res, args, depth=0, mine=None):
+        """The caller owns what it was handed back.  Overwrite returned arrays / lists / dicts and the
+        numeric attributes of returned repository objects - but nothing that is (part of) an argument
+        or a shipped constant, and nothing nested inside a returned repository object (the library
+        documents that e.g. a negated transformation shares the uncertainty object of its source)."""
         np = self.env.np
-        if depth > 4 or res is None:
-            return 0
-        if id(res) in self.cat or any(res is a for a in args):
+        if mine is None:
+            mine = self._reachable_ids(args)
+        if depth > 4 or res is None or id(res) in self.cat or id(res) in mine:
             return 0
         n = 0
         if isinstance(res, np.ndarray):
@@ -657,17 +681,32 @@ class C09(CheckBase):
             return 0
         if isinstance(res, list):
             for x in res:
-                n += self._scribble(x, args, depth + 1)
+                n += self._scribble(x, args, depth + 1, mine)
             res.append('scribbled-by-caller')
             return n + 1
         if isinstance(res, dict):
             for x in list(res.values()):
-                n += self._scribble(x, args, depth + 1)
+                n += self._scribble(x, args, depth + 1, mine)
             res['scribbled-by-caller'] = True
             return n + 1
         if isinstance(res, tuple):
             for x in res:
-                n += self._scribble(x, args, depth + 1)
+                n += self._scribble(x, args, depth + 1, mine)
+            return n
+        if self.canon.is_repo_class(type(res)) and not isinstance(res, (float, int, str)):
+            try:
+                d = vars(res)
+            except TypeError:
+                return n
+            for k in sorted(d):
+                v = d[k]
+                if isinstance(v, bool) or not isinstance(v, (int, float)):
+                    continue
+                try:
+                    setattr(res, k, v + 0.25)
+                    n += 1
+                except Exception:
+                    pass
         return n
 
     @staticmethod
